@@ -126,7 +126,7 @@ PROPS = {
     "C08": {
         "level": "exploration",
         "interpreters": ALL,
-        "rule": "all ordered pairs of the constant universe S-CONST (47 atoms incl. signed zeros, NaN, infinities, 2^53 neighbours, huge ints, complex with signed zero/NaN parts, lone surrogates, tag-lookalike strings, bytes, Ellipsis; closed under 1-tuples, singleton frozensets, pairs over a 12-atom core, one more nesting level; each value built twice independently) compared as Constant, as one-instruction CodeData and against the JSON-loaded copy: == must coincide with CPython's constant partition (_PyCode_ConstantKey, NaNs merged; cross-checked against the harness's strict key on every pair), be symmetric, consistent with !=, and imply equal hashes and mutual set/dict membership; equal values encode to identical code. All ordered pairs of CodeData obtained from a spread of 300 (thorough 600) grammar programs by 7 routes (decode, decode of an independent compile, normalize, JSON load of both, field-by-field reconstruction, decode of encode). setattr/delattr of every field of every dataclass. distinct_nontrivial = distinct equal pairs of non-identical objects + (type, field) pairs.",
+        "rule": "all ordered pairs of the constant universe S-CONST (50 atoms incl. signed zeros, NaNs with either sign and a payload, infinities, 2^53 neighbours, huge ints, complex with signed zero/NaN parts, lone surrogates, tag-lookalike strings, bytes, Ellipsis; closed under 1-tuples, singleton frozensets, pairs over a 12-atom core, one more nesting level; each value built twice independently) compared as Constant, as one-instruction CodeData and against the JSON-loaded copy: == must coincide with CPython's constant partition (_PyCode_ConstantKey, NaNs merged; cross-checked against the harness's strict key on every pair), be symmetric, consistent with !=, and imply equal hashes and mutual set/dict membership; equal values encode to identical code. All ordered pairs of CodeData obtained from a spread of 300 (thorough 600) grammar programs by 7 routes (decode, decode of an independent compile, normalize, JSON load of both, field-by-field reconstruction, decode of encode) plus about 16 single-field deviations of the decoded value (each must be unequal to everything else). setattr/delattr of every field of every dataclass. distinct_nontrivial = distinct equal pairs of non-identical objects + (type, field) pairs.",
         "assumptions": TRUST + ["on 3.11-3.13 only the hand-built and JSON routes exist (from_code cannot run there)"],
         "required_reach": {"quick": ["equal-pair-ok", "unequal-pair-ok", "frozen-ok", "route-pair-equal"]},
     },
@@ -170,7 +170,7 @@ PROPS = {
     "C16": {
         "level": "exploration",
         "interpreters": PRODUCERS,
-        "rule": "S-CLI completely: presence/absence of each program source {file, -c, -e, -m} (16 combinations: 4 valid, 12 usage errors) x all 2^5 subsets of {--dis, --dis-after, --source, --no-normalize, --json} x 9 programs (empty; two lines; nested functions/closure/class; NaN/inf/-0.0/bytes/surrogate/complex/huge-int/tuple/frozenset constants; 300 constants; non-ASCII; async/comprehension/try/while; lines >255 apart; one-line suites) = 4608 argv vectors per interpreter, each run in-process through code_data._cli.main(); the vectors with no flag and with all flags are also run through the real entry point in a subprocess and must agree. Oracle: usage error (exit 2) iff the number of sources != 1; else exit 0, the printed CodeData line textually equals repr() of the API result (normalized unless --no-normalize), the printed JSON loads back to it, --dis/--dis-after listings equal the harness's own dis of the program (opnames and resolved operands).",
+        "rule": "S-CLI completely: presence/absence of each program source {file, -c, -e, -m} (16 combinations: 4 valid, 12 usage errors) x all 2^5 subsets of {--dis, --dis-after, --source, --no-normalize, --json} x 10 programs (empty; two lines; nested functions/closure/class; NaN/inf/-0.0/bytes/surrogate/complex/huge-int/tuple/frozenset constants; 300 constants; non-ASCII; async/comprehension/try/while; lines >255 apart; backslash-n inside literals; one-line suites) = 5120 argv vectors per interpreter, each run in-process through code_data._cli.main(); the vectors with no flag and with all flags are also run through the real entry point in a subprocess and must agree. Oracle: usage error (exit 2) iff the number of sources != 1; else exit 0, the printed CodeData line textually equals repr() of the API result (normalized unless --no-normalize), the printed JSON loads back to it, --dis/--dis-after listings equal the harness's own dis of the program (opnames and resolved operands).",
         "assumptions": TRUST + ["the plain-console path is checked (rich is not installed on the producer interpreters)"],
         "required_reach": {"quick": ["usage-error:0-sources", "usage-error:2-sources", "usage-error:4-sources", "prints-api-result:file", "prints-api-result:-c", "prints-api-result:-e", "prints-api-result:-m", "json-ok", "dis-after-ok", "subprocess-agrees"]},
     },
@@ -262,7 +262,7 @@ MANIFEST_TEXT = {
         "technique": "exhaustive operation-history enumeration on shared objects with state snapshots after every step",
     },
     "C16": {
-        "text": "Exhaustive over the argv space S-CLI (all source-option combinations x all output-flag subsets x 9 programs) on each interpreter, in-process and (for the extreme flag sets) through the real entry point; the printed text is compared with the API's own result computed in the same process.",
+        "text": "Exhaustive over the argv space S-CLI (all source-option combinations x all output-flag subsets x 10 programs) on each interpreter, in-process and (for the extreme flag sets) through the real entry point; the printed text is compared with the API's own result computed in the same process.",
         "design_ref": "DESIGN.md section 4 C16",
         "note": BASE_NOTE,
         "technique": "exhaustive enumeration of argument vectors; printed output compared textually with the API result",
